@@ -1,0 +1,24 @@
+//go:build verif
+
+package rewardTx
+
+// Contracts for govc (/verif). Comment-only file: no executable code, not part of the default build.
+// C35 (agent S): generated getters of RewardTx.
+
+/*@
+func (m *RewardTx) GetRound() (r uint64)
+  ensures  field: m != nil ==> r == m.Round
+  assigns  nothing
+
+func (m *RewardTx) GetValue() (r *big.Int)
+  ensures  field: m != nil ==> r == m.Value
+  assigns  nothing
+
+func (m *RewardTx) GetRcvAddr() (r []byte)
+  ensures  field: m != nil ==> r == m.RcvAddr
+  assigns  nothing
+
+func (m *RewardTx) GetEpoch() (r uint32)
+  ensures  field: m != nil ==> r == m.Epoch
+  assigns  nothing
+@*/
